@@ -15,6 +15,7 @@ use crate::sink::Outcome;
 pub fn gen_history(rng: &mut Rng, idx: u64) -> ProgCase {
     let mut k = Knobs::functional();
     k.long_pct = 0;
+    k.mib_frames = false; // every fault point re-executes the history
     k.short_max = 6;
     k.after_finish_pct = 0;
     k.enc_api_pct = 5;
